@@ -81,6 +81,13 @@ def realize(recipe):
                 return T.PintUnit(v)
             if k == "$quantity":
                 return T.PintQuantity(v)
+            if k in ("$sivalue", "$qvalue"):
+                from metador_core.schema.common import SIValue
+                from metador_core.schema.common.schemaorg import QuantitativeValue
+                kw = {"value": v[0]}
+                if v[1] is not None:
+                    kw["unitText"] = v[1]
+                return (SIValue if k == "$sivalue" else QuantitativeValue)(**kw)
         return {k: realize(v) for k, v in recipe.items()}
     if isinstance(recipe, list):
         return [realize(x) for x in recipe]
@@ -245,11 +252,19 @@ def model_recipe(cls, depth=0, dates=True, objects=True, required_only=False):
     parser = cls.__dict__.get("Parser") or getattr(cls, "Parser", None)
     name = cls.__name__
     if name in ("SIValue",):
-        return st.builds(lambda m, u: f"{m} {u}", st.sampled_from(MAGS), st.sampled_from(UNITS))
+        txt = st.builds(lambda m, u: f"{m} {u}", st.sampled_from(MAGS), st.sampled_from(UNITS))
+        if not objects:
+            return txt
+        mu = st.tuples(st.sampled_from([5, 7.5, 0, 1000]), st.sampled_from(["km", "meter", "kg", "volt"]))
+        return st.one_of(txt, txt, mu.map(lambda t: {"value": t[0], "unitText": t[1]}), mu.map(lambda t: {"$sivalue": list(t)}),
+                         mu.map(lambda t: {"$qvalue": list(t)}))
     if name in ("Pixels",):
         return st.one_of(st.integers(0, 5000), st.floats(0, 100).map(lambda x: round(x, 2)))
     if name in ("NumValue",):
-        return st.one_of(st.integers(0, 5000), st.sampled_from(["5 kg", "3"]))
+        plain = st.one_of(st.integers(0, 5000), st.sampled_from(["5 kg", "3"]))
+        if not objects:
+            return plain
+        return st.one_of(plain, st.sampled_from([{"value": 5}, {"value": 2.5, "unitText": "cm"}, {"$qvalue": [5, None]}, {"$qvalue": [5, "mm"]}]))
     hints = getattr(cls, "_typehints", None) or mt.get_type_hints(cls)
     consts = getattr(cls, "__constants__", {}) or {}
     fields = {}
@@ -308,8 +323,13 @@ LEAF = {
     "NonNegativeInt": NonNegativeInt, "PositiveFloat": PositiveFloat, "Duration": T.Duration, "PintUnit": T.PintUnit,
     "PintQuantity": T.PintQuantity,
 }
+try:
+    from metador_core.schema.common import NumValue as _NumValue, SIValue as _SIValue
+    LEAF.update({"SIValue": _SIValue, "NumValue": _NumValue})
+except Exception:  # noqa: BLE001
+    pass
 STRLIKE = {"Str", "NonEmptyStr", "MimeTypeStr", "HashsumStr", "QualHashsumStr", "AnyHttpUrl", "Duration", "PintUnit",
-           "PintQuantity"}
+           "PintQuantity", "SIValue", "NumValue"}
 HASHABLE_LEAF = ["Bool", "Int", "Str", "NonEmptyStr", "HashsumStr", "NonNegativeInt", "AnyHttpUrl"]
 DEFAULTS = {"Bool": True, "Int": 7, "Float": 0.5, "Str": "dflt", "NonEmptyStr": "dflt", "NonNegativeInt": 3}
 _enum_cache = {}
